@@ -8,5 +8,5 @@ if [ ! -d $wt ]; then git -C /repo worktree add -q --detach $wt HEAD || exit 2; 
 git -C $wt checkout -q --detach $(git -C /repo rev-parse HEAD) && git -C $wt checkout -q -- . && git -C $wt clean -fdq go
 git -C $wt apply $patch || { echo "PATCH DOES NOT APPLY"; exit 2; }
 ov=$(/verif/dev_overlay.sh $pkg $tier)
-timeout 1500 /verif/bin/gosmt check -dir $wt/go -pkg ./$pkg -overlay $ov -harness "$re" -solver z3 -timeout 60000 -workers 14 -out /tmp/mutrepo/dev_out.json 2>&1 | grep -v "^WARNING" | cut -c1-220 | grep -E "^harness|violation" | sort | uniq -c | sort -rn | head -12
+timeout 1500 /verif/bin/gosmt check -dir $wt/go -pkg ./$pkg -overlay $ov -harness "$re" -solver ${VERIF_SOLVER:-z3} -timeout 60000 -workers 14 -out /tmp/mutrepo/dev_out.json 2>&1 | grep -v "^WARNING" | cut -c1-220 | grep -E "^harness|violation" | sort | uniq -c | sort -rn | head -12
 git -C $wt checkout -q -- .
